@@ -41,8 +41,8 @@ spec fn keyed_entry(key: MerkleHash, e: CASChunkSequenceEntry) -> CASChunkSequen
     requires byte_pos + 48 <= usize::MAX,
     ensures
         res matches Ok((hdr, bp)) ==> {
-            &&& /*@C18*/ hdr == decode_cas_header(old(reader).bytes@.subrange(old(reader).pos@, old(reader).pos@ + 48))
-            &&& /*@C18*/ final(writer).bytes@ == old(writer).bytes@ + encode_cas_header(hdr)
+            &&& /*@C18,C05*/ hdr == decode_cas_header(old(reader).bytes@.subrange(old(reader).pos@, old(reader).pos@ + 48))
+            &&& /*@C18,C05*/ final(writer).bytes@ == old(writer).bytes@ + encode_cas_header(hdr)
             &&& final(reader).pos@ == old(reader).pos@ + 48 && final(reader).bytes@ == old(reader).bytes@
             &&& bp == byte_pos + 48
         },
@@ -53,7 +53,7 @@ spec fn keyed_entry(key: MerkleHash, e: CASChunkSequenceEntry) -> CASChunkSequen
 //@ block `if include_cas_lookup_table {` #1
 //@ sig `fn push_cas_lookup(cas_lookup: &mut Vec<(u64, u32)>, cas_metadata: &CASChunkSequenceHeader, cas_index: u32, hmac_key: HMACKey)`
 //@ contract
-    ensures /*@C18*/ final(cas_lookup)@ == old(cas_lookup)@.push((cas_metadata.cas_hash.0[0], cas_index)),
+    ensures /*@C18,C05*/ final(cas_lookup)@ == old(cas_lookup)@.push((cas_metadata.cas_hash.0[0], cas_index)),
 //@ end
 
 // the footer records the key the chunk hashes were keyed with (U-SHQ's keyed comparison reads it back); nothing else changes
@@ -64,7 +64,7 @@ spec fn keyed_entry(key: MerkleHash, e: CASChunkSequenceEntry) -> CASChunkSequen
 //@ to-before `let creation_time`
 //@ sig `fn set_footer_key(out_footer: &mut MDBShardFileFooter, hmac_key: HMACKey)`
 //@ contract
-    ensures /*@C18*/ *final(out_footer) == (MDBShardFileFooter { chunk_hash_hmac_key: hmac_key, ..*old(out_footer) }),
+    ensures /*@C18,C05*/ *final(out_footer) == (MDBShardFileFooter { chunk_hash_hmac_key: hmac_key, ..*old(out_footer) }),
 //@ end
 
 // ---- the chunk list of one block: the `for chunk_index in 0..num_entries` loop, header and body ------------------------
@@ -91,19 +91,19 @@ spec fn block_lookups(key: MerkleHash, bytes: Seq<u8>, p0: int, cas_index: u32, 
         res is Ok ==> {
             let n = cas_metadata.num_entries as int; let p0 = old(reader).pos@;
             // every chunk entry of the block is re-exported in order with its keyed hash, nothing else written
-            &&& /*@C18*/ final(writer).bytes@ == old(writer).bytes@ + out_entries(hmac_key, old(reader).bytes@, p0, n)
+            &&& /*@C18,C05*/ final(writer).bytes@ == old(writer).bytes@ + out_entries(hmac_key, old(reader).bytes@, p0, n)
             &&& final(reader).pos@ == p0 + 48 * n && final(reader).bytes@ == old(reader).bytes@
             &&& res->Ok_0 == byte_pos + 48 * n
             // the chunk lookup table receives exactly the truncated keyed hashes of this block, in order, with (block, chunk) indices
-            &&& /*@C18*/ final(chunk_lookup)@ == old(chunk_lookup)@ + (if include_chunk_lookup_table { block_lookups(hmac_key, old(reader).bytes@, p0, cas_index, n) } else { Seq::empty() })
+            &&& /*@C18,C05*/ final(chunk_lookup)@ == old(chunk_lookup)@ + (if include_chunk_lookup_table { block_lookups(hmac_key, old(reader).bytes@, p0, cas_index, n) } else { Seq::empty() })
         },
 //@ loop 1
         invariant
             /*@AUX*/ byte_pos0 + 48 * cas_metadata.num_entries <= usize::MAX,
             byte_pos == byte_pos0 + 48 * chunk_index,
             reader.bytes@ == rb0, reader.pos@ == p0 + 48 * chunk_index,
-            /*@C18*/ writer.bytes@ == wb0 + out_entries(hmac_key, rb0, p0, chunk_index as int),
-            /*@C18*/ chunk_lookup@ == l0 + (if include_chunk_lookup_table { block_lookups(hmac_key, rb0, p0, cas_index, chunk_index as int) } else { Seq::empty() }),
+            /*@C18,C05*/ writer.bytes@ == wb0 + out_entries(hmac_key, rb0, p0, chunk_index as int),
+            /*@C18,C05*/ chunk_lookup@ == l0 + (if include_chunk_lookup_table { block_lookups(hmac_key, rb0, p0, cas_index, chunk_index as int) } else { Seq::empty() }),
 //@ body-start
     let ghost byte_pos0 = byte_pos as int; let ghost rb0 = reader.bytes@; let ghost p0 = reader.pos@; let ghost wb0 = writer.bytes@; let ghost l0 = chunk_lookup@;
     proof {
